@@ -46,7 +46,7 @@ func monitorHeap(c Case) (kind, what string) {
 	less := hc.OrdLess(c.Ord)
 	var im *hc.Impl
 	if p, v := vlib.Try(func() { im = hc.NewImpl(c) }); p {
-		return "heap-new-panics", fmt.Sprintf("constructor panicked: %v", v)
+		return "heap-unexpected-panic-new", fmt.Sprintf("constructor panicked: %v", v)
 	}
 	var ref []hc.Item
 	for _, p := range c.Init {
@@ -72,7 +72,9 @@ func monitorHeap(c Case) (kind, what string) {
 		}
 		return "", ""
 	}
-	if n := im.H.Len(); n != len(ref) {
+	if n, perr := im.HLen(); perr != "" {
+		return "heap-unexpected-panic-len", "Len after construction: " + perr
+	} else if n != len(ref) {
 		return "heap-len-initial", fmt.Sprintf("Len %d after construction from %d items", n, len(ref))
 	}
 	for idx, o := range c.Ops {
@@ -82,7 +84,7 @@ func monitorHeap(c Case) (kind, what string) {
 		case "push":
 			ref = append(ref, hc.Item{P: o.A, ID: o.B})
 			if got != "ok" {
-				return "heap-push-panics", at + " returned " + got
+				return "heap-unexpected-panic-push", at + " returned " + got
 			}
 		case "pop", "peek":
 			if len(ref) == 0 {
@@ -93,7 +95,7 @@ func monitorHeap(c Case) (kind, what string) {
 			}
 			x, ok := parseItem(got)
 			if !ok {
-				return "heap-" + o.Name + "-unexpected-panic", at + " returned " + got + " with items held"
+				return "heap-unexpected-panic-" + o.Name, at + " returned " + got + " with items held"
 			}
 			if k, w := isMin(x); k != "" {
 				return "heap-" + o.Name + "-" + k, at + ": " + w
@@ -103,18 +105,34 @@ func monitorHeap(c Case) (kind, what string) {
 				ref = append(ref[:i:i], ref[i+1:]...)
 			}
 		case "len":
+			if got == "panic" {
+				return "heap-unexpected-panic-len", at + " returned " + got
+			}
 			if got != strconv.Itoa(len(ref)) {
 				return "heap-len", at + " returned " + got + fmt.Sprintf(", %d items are held", len(ref))
 			}
 		case "grow", "shrink":
 			if got != "ok" {
-				return "heap-" + o.Name + "-panics", at + " returned " + got
+				return "heap-unexpected-panic-" + o.Name, at + " returned " + got
 			}
 		default:
 			continue
 		}
-		if n := im.H.Len(); n != len(ref) {
+		// the observation after every step: Len counts, Peek is a minimum of what is held
+		if n, perr := im.HLen(); perr != "" {
+			return "heap-unexpected-panic-len", "Len after " + at + ": " + perr
+		} else if n != len(ref) {
 			return "heap-len-after-" + o.Name, fmt.Sprintf("after %s Len is %d, pushes minus pops is %d", at, n, len(ref))
+		}
+		if len(ref) > 0 && o.Name != "peek" {
+			pk := im.Apply(Op{Name: "peek"})
+			x, ok := parseItem(pk)
+			if !ok {
+				return "heap-unexpected-panic-peek", "Peek after " + at + " returned " + pk + " with items held"
+			}
+			if k, w := isMin(x); k != "" {
+				return "heap-peek-" + k + "-after-" + o.Name, "Peek after " + at + ": " + w
+			}
 		}
 	}
 	// draining returns everything in non-decreasing order
@@ -124,7 +142,7 @@ func monitorHeap(c Case) (kind, what string) {
 		got := im.Apply(Op{Name: "pop"})
 		x, ok := parseItem(got)
 		if !ok {
-			return "heap-drain-panics", fmt.Sprintf("drain: pop %d of %d returned %s", i, total, got)
+			return "heap-unexpected-panic-pop", fmt.Sprintf("drain: pop %d of %d returned %s", i, total, got)
 		}
 		if k, w := isMin(x); k != "" {
 			return "heap-drain-" + k, fmt.Sprintf("drain: pop %d: %s", i, w)
@@ -137,7 +155,9 @@ func monitorHeap(c Case) (kind, what string) {
 		j := find(x)
 		ref = append(ref[:j:j], ref[j+1:]...)
 	}
-	if n := im.H.Len(); n != 0 {
+	if n, perr := im.HLen(); perr != "" {
+		return "heap-unexpected-panic-len", "Len after draining: " + perr
+	} else if n != 0 {
 		return "heap-drain-count", fmt.Sprintf("after draining %d items Len is %d", total, n)
 	}
 	if got := im.Apply(Op{Name: "pop"}); got != "panic" {
@@ -151,23 +171,40 @@ func monitorPQ(c Case) (kind, what string) {
 	less := hc.OrdLess(c.Ord)
 	var im *hc.Impl
 	if p, v := vlib.Try(func() { im = hc.NewImpl(c) }); p {
-		return "pq-new-panics", fmt.Sprintf("constructor panicked: %v", v)
+		return "pq-unexpected-panic-new", fmt.Sprintf("constructor panicked: %v", v)
+	}
+	// every call into the library is guarded; a panic that the property does not ask for (only Pop and
+	// Peek on an empty queue must panic) is a failure of its own kind
+	unexpected := func(op, where, perr string) (string, string) {
+		return "pq-unexpected-panic-" + op, where + ": " + perr
 	}
 	ref := map[int]int{}
 	// a queue built from an initial list holds each distinct key once (the text leaves open which
 	// of the listed priorities a duplicated key gets)
 	cand := map[int][]int{}
+	var order []int // distinct keys in list order (deterministic reports)
 	for _, p := range c.Init {
+		if _, seen := cand[p[0]]; !seen {
+			order = append(order, p[0])
+		}
 		cand[p[0]] = append(cand[p[0]], p[1])
 	}
-	if n := im.Q.Len(); n != len(cand) {
+	if n, perr := im.QLen(); perr != "" {
+		return unexpected("len", "Len after construction", perr)
+	} else if n != len(cand) {
 		return "pq-initial-dedup-len", fmt.Sprintf("Len %d for an initial list with %d distinct keys", n, len(cand))
 	}
-	for k, ps := range cand {
-		if !im.Q.Contains(k) {
+	for _, k := range order {
+		ps := cand[k]
+		if in, perr := im.QContains(k); perr != "" {
+			return unexpected("contains", fmt.Sprintf("Contains(%d) after construction", k), perr)
+		} else if !in {
 			return "pq-initial-dedup-contains", fmt.Sprintf("key %d of the initial list is not contained", k)
 		}
-		p := im.Q.Priority(k)
+		p, perr := im.QPriority(k)
+		if perr != "" {
+			return unexpected("priority", fmt.Sprintf("Priority(%d) after construction", k), perr)
+		}
 		ok := false
 		for _, q := range ps {
 			ok = ok || p == q
@@ -177,16 +214,24 @@ func monitorPQ(c Case) (kind, what string) {
 		}
 		ref[k] = p
 	}
+	// full: the observation after every step, judged against the reference map: Len, Contains and
+	// Priority of every key of the universe, and Peek (a key whose current priority is minimal)
 	full := func(after string) (string, string) {
-		if n := im.Q.Len(); n != len(ref) {
+		if n, perr := im.QLen(); perr != "" {
+			return unexpected("len", "Len", perr)
+		} else if n != len(ref) {
 			return "pq-len-after-" + after, fmt.Sprintf("Len is %d, the mapping holds %d keys", n, len(ref))
 		}
 		for k := 0; k < c.U; k++ {
 			p, in := ref[k]
-			var got bool
-			var gp int
-			if pn, _ := vlib.Try(func() { got = im.Q.Contains(k); gp = im.Q.Priority(k) }); pn {
-				return "pq-observe-panics-after-" + after, fmt.Sprintf("Contains/Priority of key %d panicked", k)
+			got, perr := im.QContains(k)
+			if perr != "" {
+				return unexpected("contains", fmt.Sprintf("Contains(%d)", k), perr)
+			}
+			// Priority of an absent key must not panic either (which value it returns is left open)
+			gp, perr := im.QPriority(k)
+			if perr != "" {
+				return unexpected("priority", fmt.Sprintf("Priority(%d) (mapping: present=%v)", k, in), perr)
 			}
 			if got != in {
 				return "pq-contains-after-" + after, fmt.Sprintf("Contains(%d) = %v, mapping says %v", k, got, in)
@@ -209,7 +254,24 @@ func monitorPQ(c Case) (kind, what string) {
 		}
 		return "", ""
 	}
-	if k, w := full("new"); k != "" {
+	observe := func(after string) (string, string) {
+		if k, w := full(after); k != "" {
+			return k, w
+		}
+		if len(ref) == 0 {
+			return "", ""
+		}
+		pk := im.Apply(Op{Name: "qpeek"})
+		k, err := strconv.Atoi(pk)
+		if err != nil {
+			return "pq-unexpected-panic-peek", "Peek returned " + pk + " with keys held"
+		}
+		if kk, w := isMin(k); kk != "" {
+			return "pq-peek-" + kk + "-after-" + after, "Peek: " + w
+		}
+		return "", ""
+	}
+	if k, w := observe("new"); k != "" {
 		return k, "after construction: " + w
 	}
 	for idx, o := range c.Ops {
@@ -219,12 +281,12 @@ func monitorPQ(c Case) (kind, what string) {
 		case "update":
 			ref[o.A] = o.B
 			if got != "ok" {
-				return "pq-update-panics", at + " returned " + got
+				return "pq-unexpected-panic-update", at + " returned " + got
 			}
 		case "remove":
 			delete(ref, o.A)
 			if got != "ok" {
-				return "pq-remove-panics", at + " returned " + got
+				return "pq-unexpected-panic-remove", at + " returned " + got
 			}
 		case "qpop", "qpeek":
 			if len(ref) == 0 {
@@ -235,7 +297,7 @@ func monitorPQ(c Case) (kind, what string) {
 			}
 			k, err := strconv.Atoi(got)
 			if err != nil {
-				return "pq-" + o.Name[1:] + "-unexpected-panic", at + " returned " + got + " with keys held"
+				return "pq-unexpected-panic-" + o.Name[1:], at + " returned " + got + " with keys held"
 			}
 			if kk, w := isMin(k); kk != "" {
 				return "pq-" + o.Name[1:] + "-" + kk, at + ": " + w
@@ -245,25 +307,34 @@ func monitorPQ(c Case) (kind, what string) {
 			}
 		case "contains":
 			_, in := ref[o.A]
-			if (got == "1") != in || got == "panic" {
+			if got == "panic" {
+				return "pq-unexpected-panic-contains", at + " returned " + got
+			}
+			if (got == "1") != in {
 				return "pq-contains", at + " returned " + got + fmt.Sprintf(", mapping says %v", in)
 			}
 		case "priority":
+			if got == "panic" {
+				return "pq-unexpected-panic-priority", at + " returned " + got
+			}
 			if p, in := ref[o.A]; in && got != strconv.Itoa(p) {
 				return "pq-priority", at + " returned " + got + fmt.Sprintf(", mapping says %d", p)
 			}
 		case "qlen":
+			if got == "panic" {
+				return "pq-unexpected-panic-len", at + " returned " + got
+			}
 			if got != strconv.Itoa(len(ref)) {
 				return "pq-len", at + " returned " + got + fmt.Sprintf(", mapping holds %d keys", len(ref))
 			}
 		case "qgrow":
 			if got != "ok" {
-				return "pq-grow-panics", at + " returned " + got
+				return "pq-unexpected-panic-grow", at + " returned " + got
 			}
 		default:
 			continue
 		}
-		if k, w := full(o.Name); k != "" {
+		if k, w := observe(o.Name); k != "" {
 			return k, "after " + at + ": " + w
 		}
 	}
@@ -274,7 +345,7 @@ func monitorPQ(c Case) (kind, what string) {
 		got := im.Apply(Op{Name: "qpop"})
 		k, err := strconv.Atoi(got)
 		if err != nil {
-			return "pq-drain-panics", fmt.Sprintf("drain: pop %d of %d returned %s", i, total, got)
+			return "pq-unexpected-panic-pop", fmt.Sprintf("drain: pop %d of %d returned %s", i, total, got)
 		}
 		if kk, w := isMin(k); kk != "" {
 			return "pq-drain-" + kk, fmt.Sprintf("drain: pop %d: %s", i, w)
@@ -284,8 +355,14 @@ func monitorPQ(c Case) (kind, what string) {
 		}
 		prev, havePrev = ref[k], true
 		delete(ref, k)
+		// the key map must stay exact while the queue drains, too
+		if kk, w := full("drain-pop"); kk != "" {
+			return kk, fmt.Sprintf("drain: after pop %d of %d: %s", i, total, w)
+		}
 	}
-	if n := im.Q.Len(); n != 0 {
+	if n, perr := im.QLen(); perr != "" {
+		return unexpected("len", "Len after draining", perr)
+	} else if n != 0 {
 		return "pq-drain-count", fmt.Sprintf("after draining %d keys Len is %d", total, n)
 	}
 	if got := im.Apply(Op{Name: "qpop"}); got != "panic" {
@@ -391,6 +468,22 @@ func genPQ(r *vlib.Rand, res *vlib.Result) Case {
 		res.Count("pq-with-initial")
 	}
 	shadow := hc.NewImplSafe(c)
+	// the shadow is the library under test: its answers only steer the generation, and a panic in
+	// it must not stop the search (the monitor judges the finished case)
+	shadowLen := func() int {
+		n, perr := shadow.QLen()
+		if perr != "" {
+			res.Count("pq-shadow-panic")
+		}
+		return n
+	}
+	shadowPrio := func(k int) int {
+		p, perr := shadow.QPriority(k)
+		if perr != "" {
+			res.Count("pq-shadow-panic")
+		}
+		return p
+	}
 	n := r.Range(5, 160)
 	malformedCase := r.Chance(1, 4)
 	add := func(o Op) {
@@ -472,7 +565,7 @@ func genPQ(r *vlib.Rand, res *vlib.Result) Case {
 	absent := func() (int, bool) {
 		var free []int
 		for k := 0; k < c.U; k++ {
-			if !shadow.Q.Contains(k) {
+			if in, _ := shadow.QContains(k); !in {
 				free = append(free, k)
 			}
 		}
@@ -493,7 +586,7 @@ func genPQ(r *vlib.Rand, res *vlib.Result) Case {
 			if !ok {
 				continue
 			}
-			p := shadow.Q.Priority(k)
+			p := shadowPrio(k)
 			switch r.Intn(4) {
 			case 0:
 				add(Op{Name: "update", A: k, B: p - 1 - r.Intn(6)})
@@ -506,7 +599,7 @@ func genPQ(r *vlib.Rand, res *vlib.Result) Case {
 				res.Count("pq-update-equal")
 			default:
 				if k2, ok := keyAt(r.Intn(4)); ok {
-					add(Op{Name: "update", A: k, B: shadow.Q.Priority(k2)})
+					add(Op{Name: "update", A: k, B: shadowPrio(k2)})
 					res.Count("pq-update-to-tie")
 				}
 			}
@@ -516,14 +609,14 @@ func genPQ(r *vlib.Rand, res *vlib.Result) Case {
 				res.Count("pq-remove-present")
 			}
 		case 3:
-			if shadow.Q.Len() > 0 || malformedCase {
-				if shadow.Q.Len() == 0 {
+			if shadowLen() > 0 || malformedCase {
+				if shadowLen() == 0 {
 					res.Count("pq-pop-on-empty")
 				}
 				add(Op{Name: "qpop"})
 			}
 		case 4:
-			if shadow.Q.Len() > 0 || malformedCase {
+			if shadowLen() > 0 || malformedCase {
 				add(Op{Name: "qpeek"})
 			}
 		case 5: // Remove of an absent key
@@ -583,16 +676,14 @@ func bigCase(r *vlib.Rand, size int, pq bool) Case {
 func stats(c Case, res *vlib.Result) bool {
 	im := hc.NewImplSafe(c)
 	maxSize, removals, panics := 0, 0, 0
-	size := func() int {
-		if c.Kind == "pq" {
-			return im.Q.Len()
-		}
-		return im.H.Len()
-	}
+	size := im.Size
 	maxSize = size()
 	for _, o := range c.Ops {
 		before := size()
-		existing := o.Name == "update" && im.Q.Contains(o.A)
+		existing := false
+		if o.Name == "update" {
+			existing, _ = im.QContains(o.A)
+		}
 		if im.Apply(o) == "panic" {
 			panics++
 		}
@@ -997,19 +1088,25 @@ func main() {
 	}
 	for i := 0; i < maxCases && time.Now().Before(deadline); i++ {
 		var c Case
-		if i%2 == 0 {
-			c = genHeap(r.Fork(), res)
-		} else {
-			c = genPQ(r.Fork(), res)
+		fr := r.Fork()
+		// a crash of the harness itself is a broken tie with the case at hand, not a lost run
+		if p, v := vlib.Try(func() {
+			if i%2 == 0 {
+				c = genHeap(fr, res)
+			} else {
+				c = genPQ(fr, res)
+			}
+			res.Count(c.Kind + "-" + c.Ord + "-" + c.Ctor)
+			res.CountN("ops", len(c.Ops))
+			var sample interface{}
+			if len(c.Ops) <= 12 {
+				sample = c.Text()
+			}
+			res.Case(c.Key(), stats(c, res), sample)
+			check(c, m, res)
+		}); p {
+			res.Fail(vlib.Failure{Source: "correspondence", Kind: "heap-harness-panic", What: fmt.Sprintf("harness panic in case %d: %v", i, v), Case: c.Text()})
 		}
-		res.Count(c.Kind + "-" + c.Ord + "-" + c.Ctor)
-		res.CountN("ops", len(c.Ops))
-		var sample interface{}
-		if len(c.Ops) <= 12 {
-			sample = c.Text()
-		}
-		res.Case(c.Key(), stats(c, res), sample)
-		check(c, m, res)
 	}
 	if env.Thorough() || env.Deep {
 		for i, size := range []int{1000, 3000, 10000, 1000, 3000} {
